@@ -98,11 +98,20 @@ theorem deVariantId_quote (names : List Bytes) (k : Bytes) (hu : Spec.Utf8.valid
   unfold visitVariantId
   cases FromValue.nameIndex names k <;> simp [ofVisit, fixPos, Except.map, Functor.map]
 
+/-- after a variant's payload, `.` / `e` / `E` is not the closing `}` -/
+theorem withPeek_bad {r : Bytes} (h : BadHead r) (pos : Nat) (i : Nat) (payload : TVal) : ∀ a r' p',
+    (withPeek env .EofWhileParsingObject r pos fun c r4 q =>
+      if c == 0x7d then (.ok (.variant i payload) r4 (q + 1) : TOut) else .err .ExpectedSomeValue (errorIdx env (c :: r4) q true)) ≠ .ok a r' p' := by
+  obtain ⟨c, tl, rfl, hw, _, _, h7⟩ := badHead_facts h
+  intro a r' p'
+  rw [withPeek_cons env _ hw]
+  simp [h7]
+
 include hext hflt hap in
 /-- enums -/
 theorem agree_enum (vs : List (Bytes × VariantShape)) (f t : Nat) (v : JV) (hv : VOK v) (hd : DepthOK env t v)
     (hp : ∀ k x kvs, v = .obj ((k, x) :: kvs) → ∀ sh, (k, sh) ∈ vs →
-      Agree1 (dePayload env (t + 1) (deTyped env f) sh) (payloadFV cfg' ext' sh x) (T ext x))
+      Agree1w (dePayload env (t + 1) (deTyped env f) sh) (payloadFV cfg' ext' sh x) (T ext x))
     (hex : ∀ k x, v = .obj [(k, x)] → ∀ sh, (k, sh) ∈ vs →
       FromValue.shapeDe cfg' ext' sh (some x) = payloadFV cfg' ext' sh x) :
     Agree1 (deTyped env (f + 1) t (.enum_ vs)) (FromValue.fromValue cfg' ext' (.enum_ vs) v) (T ext v) := by
@@ -258,7 +267,7 @@ theorem agree_enum (vs : List (Bytes × VariantShape)) (f t : Nat) (v : JV) (hv 
               simp only [Except.map]
               intro a r p
               rw [hrun]
-              exact bind_not_ok hpay a r p
+              exact bind_bad hpay (fun y r3 p3 hb => withPeek_bad hb p3 _ _) a r p
             | ok y =>
               rw [hpv] at hpay
               simp only [Except.map]
@@ -276,7 +285,7 @@ theorem agree_enum (vs : List (Bytes × VariantShape)) (f t : Nat) (v : JV) (hv 
             cases hpv : payloadFV cfg' ext' sh x with
             | error e =>
               rw [hpv] at hpay
-              exact bind_not_ok hpay a r p
+              exact bind_bad hpay (fun y r3 p3 hb => withPeek_bad hb p3 _ _) a r p
             | ok y =>
               rw [hpv] at hpay
               simp only at hpay
